@@ -85,7 +85,7 @@ PROPS = {
             # the background loop's pass (non-forced) and the quiescence it waits for
             {"cmd": "bt", "scenario": "c16q", "quick": 80, "thorough": 2000},
         ],
-        "facts": ["bt.table_mutex"],
+        "facts": ["bt.table_mutex", "bt.gc_calls"],
         "trusted": BT_TRUST + ["the 15-60 s timer loop (gcloop) is not modelled; a pass is forced through the verif hook with the injected clock"],
         "assumptions": ["interleaved writes at the lock reversals are SetCells on rows that exist during the whole pass (whether a row inserted during a pass is visited by it is engine dependent and not fixed by the property)"],
     },
